@@ -103,7 +103,14 @@ class Model:
         cbs = {}
         pcbs = {}
         self.cb_specs = desc.get("callbacks", {})
-        ns: Dict[str, Any] = {}
+        # the generated classes live in a real (registered) module, as user classes do: typing.get_type_hints resolves
+        # string annotations (forward references, `from __future__ import annotations`) through sys.modules
+        import sys as _sys
+        Model._counter = getattr(Model, "_counter", 0) + 1
+        mod = types.ModuleType("types_model_%d" % Model._counter)
+        _sys.modules[mod.__name__] = mod
+        _sys.modules.pop("types_model_%d" % (Model._counter - 3), None)      # keep only the last few
+        ns: Dict[str, Any] = mod.__dict__
         exec("from typing import *\nimport dataclasses\nfrom func_adl import *\n"
              "from func_adl.type_based_replacement import ObjectStreamInternalMethods\n", ns)
         self.ns = ns
@@ -118,7 +125,7 @@ class Model:
         ns["CB"] = cbs
         ns["PCB"] = pcbs
         self.source = gen_source(desc)
-        exec(self.source, ns)
+        exec(compile(desc.get("header", "") + self.source, "<class model %s>" % mod.__name__, "exec"), ns)
         self.tbr = tbr
         self.ObjectStream = ObjectStream
         self.classes = [ns[c["name"]] for c in desc["classes"]]
